@@ -29,6 +29,8 @@ PrefixChunks ==
     [] Base = "tag"      -> << PlainChunk(<<50,48,48>> \o NL \o Sp2 \o KwBytes["Body"] \o <<32>> \o AnyB \o NL \o KwBytes["TAG"] \o <<32,64,116>> \o NL) >>   \* 200 / Body any / TAG @t
     [] Base = "method"   -> << PlainChunk(KwBytes["GET"] \o <<32,47,97>> \o NL) >>                                                 \* GET /a
     [] Base = "typeBody" -> << PlainChunk(KwBytes["TYPE"] \o <<32,64,116>> \o NL), BodyChunk(<<123,125>>, TRUE, FALSE, 0), PlainChunk(NL) >>   \* TYPE @t / {}
+    [] Base = "typeAnyFirst" -> << PlainChunk(KwBytes["TYPE"] \o <<32>> \o AnyB \o <<32,64,116>> \o NL) >>                  \* TYPE any @t  (notation before the name: no body follows either)
+    [] Base = "typeEmptyLast" -> << PlainChunk(KwBytes["TYPE"] \o <<32,64,116,32>> \o EmptyB \o NL) >>                      \* TYPE @t empty
     [] Base = "explicit" -> << PlainChunk(KwBytes["URL"] \o <<32,47,97>> \o NL \o <<40>> \o NL) >>                                 \* URL /a ( 
 RECURSIVE FeedAll(_, _, _)
 FeedAll(S, cs, i) == IF i > Len(cs) THEN S ELSE FeedAll(FeedChunk(S, cs[i]), cs, i + 1)
